@@ -94,6 +94,7 @@ class Polytope:
         n_faces = 4
         for i in range(n_faces):
             self.compute_normal(i)
+            self.fix_ccw_normal_direction(i)
         return n_faces
 
     def compute_normal(self, face_idx):
